@@ -244,3 +244,16 @@ def task_c19_analyze(task):
             goals[g] = {"err": {"etype": type(e).__name__, "msg": str(e)[:300]}}
     res["goals"] = goals
     return res
+
+
+def task_c19_goals(task):
+    """goal strings -> what GoalParser.parse makes of them (kind, canonical polynomial dumps) or the error"""
+    from inputparser import GoalParser
+    out = []
+    for g in task["goals"]:
+        try:
+            kind, data = GoalParser.parse(g)
+            out.append({"ok": [str(kind), [(_c19_poly(x) if not isinstance(x, int) else x) for x in data]]})
+        except BaseException as e:  # noqa
+            out.append({"err": _c19_classify(e)})
+    return {"results": out}
